@@ -15,3 +15,26 @@ Theorem C08_indents : forall cw alnum lbc custom_sp ofit o text ls,
 Proof. intros. eapply wrap_indented. eassumption. Qed.
 
 Print Assumptions C08_indents.
+
+(* second half: what follows the indent depends only on the indents' display widths and
+   emptiness.  SameShape o o' : the two option records agree on everything but the
+   indents, whose display widths and emptiness agree.  Then wrap fails for both or for
+   neither, returns the same number of lines, and line i is its own indent followed by
+   the SAME rest, with the same Cow kind (and offset). *)
+From TW Require Import IndentIndep.
+
+Theorem C08_rest_independent_of_indent_characters : forall cw alnum lbc custom_sp ofit o o' text,
+  SameShape cw o o' ->
+  (wrap cw alnum lbc custom_sp ofit o text = None /\ wrap cw alnum lbc custom_sp ofit o' text = None) \/
+  (exists ls ls',
+     wrap cw alnum lbc custom_sp ofit o text = Some ls /\
+     wrap cw alnum lbc custom_sp ofit o' text = Some ls' /\
+     length ls = length ls' /\
+     forall i d d', (i < length ls)%nat ->
+       exists rest,
+         l_text (nth i ls d) = (if (i =? 0)%nat then o_ii o else o_si o) ++ rest /\
+         l_text (nth i ls' d') = (if (i =? 0)%nat then o_ii o' else o_si o') ++ rest /\
+         l_cow (nth i ls d) = l_cow (nth i ls' d')).
+Proof. intros. apply wrap_indent_indep. assumption. Qed.
+
+Print Assumptions C08_rest_independent_of_indent_characters.
